@@ -56,14 +56,22 @@ func init() {
 						continue
 					}
 					n++
-					if fn != rm || mg == nil {
+					// in runMigration itself, or in a helper of it (conditions are then taken along the call chain)
+					var dsite *deepSite
+					if mg != nil {
+						for _, ds := range p.deepSites(rm, func(x Site) bool { return x.Instr == s.Instr }, 2) {
+							ds := ds
+							dsite = &ds
+						}
+					}
+					if dsite == nil || (fn != rm && !p.calledOnlyFrom(fn, "runMigration", 0)) {
 						c.viol("applied-bit", "CurrentVersion.Set ← "+qname(fn), p.Pos(s.Pos()), "the applied bit of a migration is set outside runMigration")
 						continue
 					}
-					d := p.mustHoldAt(s.Instr)
+					d := p.mustHoldDeep(*dsite)
 					ok1, m1 := everyDisjunctHas(d, []string{"^!", "Migrate(", "#0 != nil"}, []string{"Migrate(", "#0 == nil"})
 					ok2, m2 := everyDisjunctHas(d, []string{"^!", "Migrate(", "#1 != nil"}, []string{"errors.Is(", "Migrate(", "ctx.Err()"})
-					c.check(ok1 && dominatesInstr(mg.Instr, s.Instr), "applied-bit", "runMigration: bit set only when Migrate returned a nil state", p.Pos(s.Pos()), "intermediateState == nil branch", "the applied bit can be set although Migrate returned a non-nil (even if empty) resume state: "+m1)
+					c.check(ok1 && dominatesInstr(mg.Instr, dsite.outer()), "applied-bit", "runMigration: bit set only when Migrate returned a nil state", p.Pos(s.Pos()), "intermediateState == nil branch", "the applied bit can be set although Migrate returned a non-nil (even if empty) resume state: "+m1)
 					c.check(ok2, "applied-bit", "runMigration: Migrate's error is handled before the bit", p.Pos(s.Pos()), "error is nil or the context's", "the applied bit can be set after Migrate failed: "+m2)
 				}
 			}
@@ -71,13 +79,24 @@ func init() {
 				c.und("applied-bit", "CurrentVersion.Set", "", "no call found")
 			}
 			// one batch
-			wm, di := findSite(rm, "WriteSchemaMetadata"), findSite(rm, "DeleteIntermediateState")
-			var wr *Site
-			for _, s := range sitesOf(rm) {
-				if s.Method != nil && s.Method.Name() == "Write" {
-					ss := s
-					wr = &ss
+			first := func(m func(Site) bool) *Site {
+				if ds := p.deepSites(rm, m, 2); len(ds) > 0 {
+					return &ds[0].Site
 				}
+				return nil
+			}
+			wm, di := first(nameMatcher("WriteSchemaMetadata")), first(nameMatcher("DeleteIntermediateState"))
+			var wr *Site
+			if wm != nil {
+				for _, s := range sitesOf(wm.Instr.Parent()) {
+					if s.Method != nil && s.Method.Name() == "Write" {
+						ss := s
+						wr = &ss
+					}
+				}
+			}
+			if wm != nil && di != nil && wm.Instr.Parent() != di.Instr.Parent() {
+				di = nil // the two writes must be made by one function on one batch value
 			}
 			okb := wm != nil && di != nil && wr != nil && stripIface(wm.Args()[0]) == stripIface(di.Args()[0]) && stripIface(wm.Args()[0]) == stripIface(wr.Recv) &&
 				dominatesInstr(wm.Instr, wr.Instr) && dominatesInstr(di.Instr, wr.Instr)
